@@ -134,6 +134,59 @@ def confine(run, db, qual, zipped, center=None):
         run.check(center.replace(' ', '') in src, 'C18.confine', fi.qual, 'centre segment', 'the centre tile is masked by the centre mask in the centre window', 'centre segment composition changed', fi.loc())
 
 
+def band_rules(run, db):
+    """Keystone rings: the radial band of a ring is half-open, so that with zero radial gap a sample exactly on a shared ring
+    radius belongs to one ring only."""
+    from ..core.interp import Interp, Frame
+    from ..core.norm import Rat
+    from ..domains.normdom import install_pi
+    from ..domains.pred import PredDomain, Pred, eval_pred
+    fk = db.func(S + '_composite_keystone_aperture')
+    arcs = [n for n in ast.walk(fk.node) if isinstance(n, ast.Assign) and ast.unparse(n.targets[0]) == 'arc']
+    if len(arcs) != 1:
+        raise AnalysisError('keystone aperture: the ring band `arc = ...` was not found')
+    defs = {}
+    for n in ast.walk(fk.node):
+        if isinstance(n, ast.Assign) and isinstance(n.targets[0], ast.Name):
+            defs.setdefault(n.targets[0].id, []).append(n)
+    dom = PredDomain(coords=('r',))
+    it = install_pi(Interp(db, dom))
+    it._reset_run([])
+    fr = Frame(fk, fk.module, {'inner_radius': dom.sym('inner'), 'outer_radius': dom.sym('outer'), 'rr': dom.sym('r')})
+    # the operands of the band may be named temporaries: bind them first (single definitions only)
+    for nm in sorted({x.id for x in ast.walk(arcs[0].value) if isinstance(x, ast.Name)} - {'inner_radius', 'outer_radius', 'rr'}):
+        ds = defs.get(nm, [])
+        if len(ds) == 1:
+            fr.env[nm] = it.ev(ds[0].value, fr)
+    v = it.ev(arcs[0].value, fr)
+    if not isinstance(v, Pred):
+        raise AnalysisError('keystone aperture: the ring band is not a predicate over the radius: %r' % (v,))
+    R = dom.R
+    inner, g = Rat(R.atom('inner')), Rat(R.atom('gap'))
+    at_in = eval_pred(v, {'r': inner, 'outer': inner + g}, {'gap', 'inner'})
+    at_out = eval_pred(v, {'r': inner + g, 'outer': inner + g}, {'gap', 'inner'})
+    mid = eval_pred(v, {'r': inner + g / 2, 'outer': inner + g}, {'gap', 'inner'})
+    if at_in is None or at_out is None or mid is None:
+        raise AnalysisError('keystone aperture: could not evaluate the band %s on its boundaries' % v.key())
+    run.check(mid is True and not (at_in and at_out), 'C18.band', fk.qual, 'ring band', 'the band of a ring contains its interior and at most one of its two boundary radii (half-open)',
+              'the ring band `%s` contains BOTH r = inner_radius and r = outer_radius%s: with radial_gap == 0 a sample exactly on the radius shared by two rings belongs to a segment of each ring '
+              '(two segments claim one sample)' % (ast.unparse(arcs[0].value), '' if mid else ' / misses its interior'), fk.loc(arcs[0]))
+
+
+def mask_memo_rules(run, db):
+    """Segment masks are rasterised per segment; if a builder memoises them, the key must determine the whole local grid."""
+    from .purity import local_memo_completeness
+    for q in (S + '_composite_hexagonal_aperture', S + '_composite_keystone_aperture'):
+        fi = db.func(q)
+        res = local_memo_completeness(fi)
+        for st, memo, bad in res:
+            run.check(not bad, 'C18.union', fi.qual, 'memo %s' % memo, 'the memo %s is keyed by everything that varies from segment to segment in what it stores' % memo,
+                      'the memo %s stores a value computed from %s, which changes from segment to segment but is not determined by the key: a later segment re-uses the mask rasterised for an earlier one on a '
+                      'different local grid (boundary samples on the wrong side of the segment edge; neighbouring segments can overlap)' % (memo, bad), fi.loc(st))
+        if not res:
+            run.ok('C18.union', fi.qual, 'segment masks are rasterised per segment (no in-function memo)')
+
+
 def ids_rules(run, db):
     """Hexagonal aperture: ring i is numbered after ALL ids of ring i-1, whatever is excluded."""
     from .common import loop_carried, reaching_at_end, ENTRY
@@ -252,9 +305,23 @@ def boundary_rules(run, db):
         kw = {'width': dom.sym('width'), 'x': dom.sym('x'), 'y': dom.sym('y'), 'height': dom.sym('height') if hgt else Const(None), 'angle': dom.sym('angle') if ang == 'sym' else ang}
         res = [q for q in it.run(f, kwargs=lambda: dict(kw)) if q.outcome == 'return']
         if ang == 'sym':
-            res = [q for q in res if not any(c.replace(' ', '') == 'angle==90' and t for c, t in q.conds)]
+            # paths special-cased by an equality with a constant angle are judged by the constant-angle cases; every other path must be the general rotation
+            import re as _re
+            special = [q for q in res if any(_re.fullmatch(r'angle==-?\d+(\.\d+)?', c.replace(' ', '')) and t for c, t in q.conds)]
+            consts = sorted({c.replace(' ', '').split('==')[1] for q in special for c, t in q.conds if t and _re.fullmatch(r'angle==-?\d+(\.\d+)?', c.replace(' ', ''))})
+            run.check(consts in ([], ['90']), 'C18.boundary', f.qual, 'special-cased angles', 'only angle == 90 is special-cased (by exchanging x and y)',
+                      'rectangle special-cases the angles %s; only the 90 degree shortcut is known to equal the rotation' % consts, f.loc())
+            res = [q for q in res if q not in special]
         if len(res) != 1:
-            raise AnalysisError('rectangle (%s): expected one path, got %d' % (label, len(res)))
+            if ang == 'sym' and len(res) > 1:
+                for q in res:
+                    extra = [c for c, t in q.conds if t and 'angle' in c and c.replace(' ', '') != 'angle!=0']
+                    if extra:
+                        run.finding('C18.boundary', f.qual, 'general angle: path under %s' % extra, 'for a general angle rectangle takes a shortcut under the condition %s, which holds for angles at which the shortcut '
+                                    'is not the rotation (e.g. 180 degrees with height != width exchanges width and height)' % extra, f.loc())
+                res = [q for q in res if not [c for c, t in q.conds if t and 'angle' in c and c.replace(' ', '') != 'angle!=0']]
+            if len(res) != 1:
+                raise AnalysisError('rectangle (%s): expected one path, got %d' % (label, len(res)))
         w, h = A('width'), (A('height') if hgt else A('width'))
         X, Y = A('x'), A('y')
         if label == 'angle=90':
@@ -404,6 +471,9 @@ def check(run, db, tier):
     run.group(confine, run, db, S + 'CompositeKeystoneAperture.compose_opd', ['self.segment_windows', 'self.segment_masks'], center='out[self.center_window]+=tile*self.center_mask')
     run.rule('C18.ids', 'segment ids: ring i is numbered after all 6(i-1)-ring ids whatever is excluded; ids and centres filtered together')
     run.group(ids_rules, run, db)
+    run.group(mask_memo_rules, run, db)
+    run.rule('C18.band', 'keystone ring bands are half-open in the radius (no sample on a shared ring radius belongs to two rings)')
+    run.group(band_rules, run, db)
     run.require_instances('C18.ids', 4)
     run.rule('C18.boundary', 'geometric primitives (circle, annulus, offset circle, rectangle, rotated ellipse, spider, regular polygon vertices) equal their analytic inequalities as formulas')
     run.group(boundary_rules, run, db)
